@@ -72,6 +72,105 @@ def rsa_pool(rng):
   return pool
 
 
+def ec_locality(rep, rng, tier):
+  """Implementation-side evidence for Props/C17Ec.lean.
+  (1) CheckValidECKey / CheckWeakCurve: a key alone vs the same key in shuffled batches - entries must coincide
+      (checkAllEC_individual_entries_local).
+  (2) CheckECKeySmallDifference(max_diff=2**10), fresh check object per call, same curve objects: the
+      BOOLEAN verdict of a key must not change under permutation of the batch and under insertion of
+      unrelated random keys (smallDiff_flags_perm / smallDiff_add_healthy); the table of the curve object is
+      brought to size 2**10 first so that every call of the comparison sees the same cached table.  How often the
+      attached DISCRETE_LOG_DIFF string of a key changes with the order is COUNTED, not judged
+      (smallDiff_evidence_depends_on_order: the last hit in scan order is kept).
+  CheckWeakECPrivateKey is NOT compared alone-vs-batch: its verdict for private keys just above 2**32 * multiplier
+  depends on the batch size (C17Ec.weakKey_verdict_depends_on_batch; reproduction in the docstring there)."""
+  from paranoid_crypto.lib import ec_util, util, ec_single_checks, ec_aggregate_checks
+  from paranoid_crypto import paranoid_pb2 as pb
+
+  def mk(cid, pt):
+    k = pb.ECKey()
+    k.ec_info.curve_type = cid
+    k.ec_info.x = util.Int2Bytes(int(pt[0]))
+    k.ec_info.y = util.Int2Bytes(int(pt[1]))
+    return k
+
+  cids = [pb.CurveType.CURVE_SECP256R1, pb.CurveType.CURVE_SECP192R1, pb.CurveType.CURVE_SECP256K1]
+  pts = []
+  for cid in cids:
+    c = ec_util.CURVE_FACTORY[cid]
+    for _ in range(3):
+      pts.append((cid, c.Multiply(c.g, rng.randrange(1, int(c.n)))))
+    P = c.Multiply(c.g, rng.randrange(1, int(c.n)))
+    pts.append((cid, (P[0], (int(P[1]) + 1) % int(c.mod))))          # off the curve
+  pts.append((0, (1, 2)))                                              # unknown curve id
+  pts.append((7, (5, 7)))                                              # binary-field id (None entry)
+  compared = 0
+  for name, cls in (('CheckValidECKey', ec_single_checks.CheckValidECKey),
+                    ('CheckWeakCurve', ec_single_checks.CheckWeakCurve)):
+    alone = []
+    for cid, pt in pts:
+      k = mk(cid, pt)
+      cls().Check([k])
+      alone.append(sig_of(k.test_info, name))
+    for _ in range(3 if tier == 'quick' else 10):
+      order = list(range(len(pts)))
+      rng.shuffle(order)
+      keys = [mk(*pts[i]) for i in order]
+      cls().Check(keys)
+      for i, k in zip(order, keys):
+        compared += 1
+        s = sig_of(k.test_info, name)
+        if s != alone[i]:
+          rep.violations.append(dict(op=name, line='%s alone-vs-batch curve=%d' % (name, pts[i][0]),
+                                     what='%s: verdict of key %r differs alone %r vs in batch %r' % (name, pts[i], alone[i], s),
+                                     impl=str(s), model=str(alone[i]), info=None))
+  # (2) joint check
+  md = 2 ** 10
+  evidence_changes = 0
+  for cid in cids[:2]:
+    c = ec_util.CURVE_FACTORY[cid]
+    saved = (c._table, c._table_size)       # the comparison runs from a fresh curve object; restored below
+    c._table, c._table_size = {}, 0
+    base = rng.randrange(2 ** 64, int(c.n) - 2 ** 64)
+    ds = [base, base + 1, base + 7, base + md - 1, base + md + 5, base + 3 * md, base + 3 * md,
+          rng.randrange(1, int(c.n))]
+    grp = [(cid, c.Multiply(c.g, d)) for d in ds]
+    healthy = [(cid, c.Multiply(c.g, rng.randrange(1, int(c.n)))) for _ in range(2)] + [(0, (1, 2))]
+    ref = {}
+    refinfo = {}
+    for variant in range(6 if tier == 'quick' else 24):
+      batch = list(grp)
+      if variant:
+        rng.shuffle(batch)
+      if variant % 2:
+        for h in healthy:
+          batch.insert(rng.randrange(len(batch) + 1), h)
+      keys = [mk(*t) for t in batch]
+      ec_aggregate_checks.CheckECKeySmallDifference(max_diff=md).Check(keys)
+      for t, k in zip(batch, keys):
+        if t in healthy:
+          continue
+        e = art.entry(k.test_info, 'CheckECKeySmallDifference')
+        flag = None if e is None else bool(e.result)
+        inf = util.GetAttachedInfo(k.test_info, 'DISCRETE_LOG_DIFF')
+        inf = None if inf is None else inf.value
+        key = (t[0], int(t[1][0]), int(t[1][1]))
+        compared += 1
+        if key in ref and ref[key] != flag:
+          rep.violations.append(dict(op='CheckECKeySmallDifference', line='smalldiff perm/healthy curve=%d' % cid,
+                                     what='CheckECKeySmallDifference: boolean verdict of a key changed with batch order / '
+                                          'healthy neighbours (%r vs %r), private keys %r' % (ref[key], flag, ds),
+                                     impl=str(flag), model=str(ref[key]), info=None))
+        if key in refinfo and refinfo[key] != inf:
+          evidence_changes += 1
+        ref[key] = flag
+        refinfo.setdefault(key, inf)
+    c._table, c._table_size = saved
+  rep.extra['ec_locality_comparisons'] = compared
+  rep.extra['smalldiff_evidence_changed_with_order'] = evidence_changes
+  rep.evaluations += compared
+
+
 def correspondence(rep, rng, tier):
   from paranoid_crypto.lib import paranoid, rsa_util, util
   from paranoid_crypto import paranoid_pb2 as pb
@@ -162,9 +261,78 @@ def correspondence(rep, rng, tier):
   rep.absorb(b, b.run())
   rep.evaluations += compared
 
+  # ---- EC key checks: locality of the verdicts on the implementation (Props/C17Ec.lean)
+  ec_locality(rep, rng, tier)
+
   # ---- EC keys: cached table histories, checks through protobuf keys (model: Model/Bsgs.lean)
   import corr.c10 as c10
   c10.correspondence(rep, rng, tier)
   # ---- ECDSA signature checks: batches, orders, repeated calls, recorded + adversarial solver answers
   import corr.c02s as c02s
   c02s.correspondence_sigs(rep, rng, tier)
+
+# ----------------------------------------------------------------------------
+# known finding D22: CheckWeakECPrivateKey (registered as a single check) is not key-local
+
+D22_WHAT = ('CheckWeakECPrivateKey: the key d*G with d = 2^32 + 2000000 on secp256r1 is not flagged alone (fresh table) '
+            'but is flagged, with DISCRETE_LOG 1001e8480, at position 4 of a batch of 9 keys: the table size '
+            'int(sqrt(2^32 * 36 * len(keys))), hence the range of logs found beyond the documented 2^32, grows with the batch')
+
+
+def d22_probe():
+  """the replay of D22 on the real code, from a fresh _table of the secp256r1 curve object
+  (saved and restored): verdict alone, verdict inside a batch of nine."""
+  import random as _random
+  from paranoid_crypto.lib import ec_util, util, ec_single_checks
+  from paranoid_crypto import paranoid_pb2 as pb
+  cid = pb.CurveType.CURVE_SECP256R1
+  c = ec_util.CURVE_FACTORY[cid]
+
+  def mk(d):
+    P = c.Multiply(c.g, d)
+    k = pb.ECKey()
+    k.ec_info.curve_type = cid
+    k.ec_info.x, k.ec_info.y = util.Int2Bytes(int(P[0])), util.Int2Bytes(int(P[1]))
+    return k
+
+  def verdict(k):
+    tr = util.GetTestResult(k.test_info, 'CheckWeakECPrivateKey')
+    e = util.GetAttachedInfo(k.test_info, 'DISCRETE_LOG')
+    return (bool(tr.result), e.value if e is not None else None)
+  r = _random.Random(7)
+  d = 2**32 + 2000000
+  saved = (c._table, c._table_size)
+  try:
+    c._table, c._table_size = {}, 0
+    k = mk(d)
+    ec_single_checks.CheckWeakECPrivateKey().Check([k])
+    alone = verdict(k)
+    c._table, c._table_size = {}, 0
+    batch = [mk(r.randrange(1, int(c.n))) for _ in range(4)] + [mk(d)] + [mk(r.randrange(1, int(c.n))) for _ in range(4)]
+    ec_single_checks.CheckWeakECPrivateKey().Check(batch)
+    inbatch = verdict(batch[4])
+    others = [verdict(b)[0] for i, b in enumerate(batch) if i != 4]
+  finally:
+    c._table, c._table_size = saved
+  return alone, inbatch, others
+
+
+def known_findings(rep):
+  listed = any(f.get('id') == 'D22' for f in fw.load_known_findings())
+  alone, inbatch, others = d22_probe()
+  rep.extra['d22_probe'] = dict(alone=alone, in_batch_of_9=inbatch, listed=listed)
+  if any(others):
+    rep.violations.append(dict(op='CheckWeakECPrivateKey', line='D22 probe', info=None, impl=str(others), model='all False',
+                               what='CheckWeakECPrivateKey flags random secp256r1 keys of the D22 probe batch: %r' % (others,)))
+  if alone == inbatch:
+    if listed:
+      rep.notes.append('listed finding D22 no longer reproduces on its replay input (alone %r, in batch %r)' % (alone, inbatch))
+    return
+  if listed and alone == (False, None) and inbatch == (True, '1001e8480'):
+    rep.known.append('D22 ' + D22_WHAT)
+    return
+  rep.violations.append(dict(
+      op='CheckWeakECPrivateKey', line='CheckWeakECPrivateKey secp256r1 d=2^32+2000000 alone-vs-batch-of-9', info=dict(replay='d22_probe'),
+      impl='alone %r / in batch %r' % (alone, inbatch), model='same verdict',
+      what='CheckWeakECPrivateKey: verdict of the key (2^32+2000000)*G differs alone %r vs inside a batch of 9 keys %r%s'
+           % (alone, inbatch, '' if listed else ' (D22, not listed in known_findings.json)')))
